@@ -17,6 +17,9 @@ import (
 	"github.com/pierrec/lz4/v4"
 )
 
+// maxReadChunk is the maximum number of bytes the read buffer grows by before they are read.
+const maxReadChunk = 1 << 20
+
 type connReader struct {
 	src    *bufio.Reader
 	comp   opt.Opt[*lz4.Reader] // empty when no compression
@@ -185,11 +188,16 @@ func (r *connReader) read() ([]byte, status.Status) {
 	}
 	size := binary.BigEndian.Uint32(head)
 
-	// Read bytes
+	// Read bytes, the size comes from the peer, so grow the buffer in steps
+	// as the bytes arrive instead of allocating the declared size at once.
 	r.buf.Reset()
-	buf := r.buf.Grow(int(size))
-	if _, err := io.ReadFull(r.reader, buf); err != nil {
-		return nil, mpxError(err)
+	for n := int(size); n > 0; {
+		k := min(n, maxReadChunk)
+		p := r.buf.Grow(k)
+		if _, err := io.ReadFull(r.reader, p); err != nil {
+			return nil, mpxError(err)
+		}
+		n -= k
 	}
-	return buf, status.OK
+	return r.buf.Bytes(), status.OK
 }
